@@ -1,5 +1,6 @@
 import SerfModel.Check.Core
 import SerfModel.Model.Regex
+import SerfModel.Gen.AnchorTemplate
 /-!
 C26 checker.
 
@@ -13,7 +14,8 @@ C26 checker.
   tagfilters `_` | `<hexkey>=<pattern>;…`
   output     `err` | `_` | `<hexname>,…` (the names of the members returned, in order)
 
-The MODEL output is the translation of `filterMembers` / `compileAnchored` run on the engine given
+The MODEL output is the interpreter `filterMembersS` on the REGENERATED shape of `filterMembers` /
+`compileAnchored` (Gen/AnchorTemplate.lean) run on the engine given
 by the table (Go's engine as oracle: `c` for the validation of the pattern alone, `wc`/`wm` for the
 template-wrapped pattern).  The MONITOR judges the
 implementation's output against the property using only the `c`/`fm` columns (what the pattern
@@ -160,7 +162,7 @@ def step (s : Unit) (op : List String) (impl : String) : LineOut Unit :=
     match parseMembers sm, parseTagFilters st, parsePat ss, parsePat sn with
     | some ms, some tags, some status, some name =>
       let e := engineOf ms tags status name
-      let m := match filterMembers e ms (tags.map fun tp => (tp.1, tp.2.pat)) status.pat name.pat with
+      let m := match filterMembersS Gen.AnchorTemplate.shape e ms (tags.map fun tp => (tp.1, tp.2.pat)) status.pat name.pat with
         | none => "err"
         | some l => showNames l
       { state := s, model := some m, monitor := monitorFilter ms tags status name impl }
